@@ -1297,6 +1297,11 @@ def rule_R2(ctx, world, tracer):
         if multi:
             ctx.check(kinds == {"SPAWN"}, "R2", "%s: generator is a child of rng_main.spawn(...)" % label, entry.where(call), "a worker chain runs on %s (%s) instead of its own spawned child stream" % (u(rng_arg), ", ".join(sorted("%s %s" % (o.kind, o.detail) for o in origins))[:200]), construct=entry.qualname, stmt="submit: rng=%s" % u(rng_arg))
         else:
+            # one chain only: a loop around the in-process call runs several chains on the one seeded generator, each
+            # continuing where the previous one stopped (chain k then depends on chains 0..k-1 and on the machine-
+            # dependent choice between this path and the pool)
+            in_loop = [a for a in world.ancestors(entry, call) if isinstance(a, loops)]
+            ctx.check(not in_loop, "R2", "%s: runs once (not in a loop over chains sharing rng_main)" % label, entry.where(call), "the in-process call of %s sits in a loop: every chain of that loop draws from the same generator rng_main instead of its own spawned child" % chain.name, construct=entry.qualname, stmt="direct: one chain")
             ctx.check(kinds == {"SEED"}, "R2", "%s: generator is rng_main" % label, entry.where(call), "the single-chain path runs on %s (%s), not on the seeded main generator" % (u(rng_arg), ", ".join(sorted("%s %s" % (o.kind, o.detail) for o in origins))[:200]), construct=entry.qualname, stmt="direct: rng=%s" % u(rng_arg))
         kind, cn_arg = world.arg_for(call, chain, cn_param, shift, bound)
         if kind != "arg":
